@@ -132,7 +132,7 @@ class _TextCueParser:
       self.parent = span
       return
 
-    if tag.startswith("rt"):
+    if tag.startswith("rt") and self.ruby_rtc is not None:
       span = model.Rt(self.parent.get_doc())
       self.ruby_rtc.push_child(span)
       self.parent = span
@@ -175,7 +175,8 @@ class _TextCueParser:
           except KeyError:
             LOGGER.warning("Ignoring class %s", c)
 
-    elif tag == "v":
+    elif tag in ("v", "rt"):
+      # <rt> outside of <ruby> carries no ruby semantics: its text is kept as plain text
       pass
 
     else:
